@@ -306,7 +306,8 @@ impl<'a> RefSim<'a> {
         for b in &blocks {
             if !b.ended {
                 return viol(
-                    &["C04", "C01", "C05"],
+                    // (C09: a handler that has started is not affected by the cancellation of its key)
+                    &["C04", "C01", "C05", "C09"],
                     "handler-left-half-way",
                     format!(
                         "{}: handler of model {} for msg {:x} began but did not end before the call returned",
@@ -650,6 +651,9 @@ impl<'a> RefSim<'a> {
                 }
                 Op::ReadTime => {
                     expect = Some(OpRes::Time(t));
+                }
+                Op::Yield => {
+                    expect = Some(OpRes::Other);
                 }
                 _ => {
                     // not generated in class S
